@@ -46,6 +46,9 @@ struct SbPeek : std::streambuf {
 struct RecStream : dmlc::SeekStream {
   std::string data;
   size_t cur = 0;
+  int id = 0;
+  std::vector<std::pair<int, std::string>> *glog = nullptr;   // shared log of Write calls (stream id, bytes)
+  std::vector<std::pair<int, std::string>> *grlog = nullptr;  // shared log of Read calls (stream id, bytes delivered)
   std::vector<std::string> wlog;                    // bytes of every Write call
   std::vector<std::pair<size_t, size_t>> rlog;      // (position, bytes delivered) of every Read call
   size_t total_w = 0, total_r = 0;
@@ -53,12 +56,14 @@ struct RecStream : dmlc::SeekStream {
     size_t k = cur < data.size() ? std::min(n, data.size() - cur) : 0;
     if (k) memcpy(p, data.data() + cur, k);
     rlog.push_back(std::make_pair(cur, k));
+    if (grlog) grlog->push_back(std::make_pair(id, data.substr(std::min(cur, data.size()), k)));
     cur += k;
     total_r += k;
     return k;
   }
   size_t Write(const void *p, size_t n) override {
     wlog.push_back(std::string(static_cast<const char *>(p), n));
+    if (glog) glog->push_back(std::make_pair(id, wlog.back()));
     if (n) {
       if (data.size() < cur) data.resize(cur, '\0');
       if (data.size() < cur + n) data.resize(cur + n, '\0');
@@ -103,7 +108,12 @@ struct StreamsHarness : vh::Harness {
   bool use_pre = false;
   uint64_t str_max = std::string().max_size();
   // adaptors
-  RecStream rec;
+  static const int kNS = 3;        // recording streams 0..2; stream 0 is attached first
+  RecStream recs[kNS];
+  std::vector<std::pair<int, std::string>> glog, grlog;
+  std::vector<std::pair<int, size_t>> attach_log;   // istream: (stream, its cursor) at every set_stream
+  int attached = 0;
+  size_t nstreams = kNS;
   std::unique_ptr<dmlc::ostream> os;
   std::unique_ptr<dmlc::istream> is;
   bool destroyed = false;
@@ -115,7 +125,17 @@ struct StreamsHarness : vh::Harness {
     is.reset();
     kind = kNone;
     destroyed = false;
-    rec = RecStream();
+    glog.clear();
+    grlog.clear();
+    attach_log.clear();
+    attached = 0;
+    nstreams = kNS;
+    for (int k = 0; k < kNS; ++k) {
+      recs[k] = RecStream();
+      recs[k].id = k;
+      recs[k].glog = &glog;
+      recs[k].grlog = &grlog;
+    }
     wseen = 0;
     use_pre = false;
   }
@@ -275,14 +295,18 @@ struct StreamsHarness : vh::Harness {
   }
 
   std::string calls_since() {
-    std::string o = "calls " + std::to_string((ull)(rec.wlog.size() - wseen));
-    for (size_t i = wseen; i < rec.wlog.size(); ++i) o += " " + vh::hex(rec.wlog[i]);
-    wseen = rec.wlog.size();
+    std::string o = "calls " + std::to_string((ull)(glog.size() - wseen));
+    for (size_t i = wseen; i < glog.size(); ++i) o += " " + std::to_string(glog[i].first) + ":" + vh::hex(glog[i].second);
+    wseen = glog.size();
     return o;
   }
 
   std::string exec_ostream(const std::vector<std::string> &w) {
-    if (w[0] == "udump" && w.size() == 1) return "bytes " + vh::hex(rec.data) + " @" + std::to_string((ull)rec.cur);
+    if (w[0] == "udump" && w.size() == 1) {
+      std::string o = "bytes";
+      for (int k = 0; k < kNS; ++k) o += " " + vh::hex(recs[k].data) + " @" + std::to_string((ull)recs[k].cur);
+      return o;
+    }
     if (destroyed || !os) return "bad-op";
     if (w[0] == "put" && w.size() == 2 && w[1].size() == 2) {
       os->put(vh::unhex(w[1])[0]);
@@ -293,11 +317,16 @@ struct StreamsHarness : vh::Harness {
     } else if (w[0] == "flush" && w.size() == 1) {
       os->flush();
     } else if (w[0] == "reattach" && w.size() == 1) {
-      os->set_stream(&rec);
+      os->set_stream(&recs[attached]);
+    } else if (w[0] == "sstream" && w.size() == 2) {
+      size_t j = strtoull(w[1].c_str(), nullptr, 10);
+      if (j >= (size_t)kNS) return "bad-op";
+      os->set_stream(&recs[j]);
+      attached = static_cast<int>(j);
     } else if (w[0] == "oveof" && w.size() == 1) {
       os->buf_.overflow(EOF);
     } else if (w[0] == "useek" && w.size() == 2) {
-      rec.Seek(strtoull(w[1].c_str(), nullptr, 10));
+      recs[attached].Seek(strtoull(w[1].c_str(), nullptr, 10));
     } else if (w[0] == "destroy" && w.size() == 1) {
       os.reset();
       destroyed = true;
@@ -306,30 +335,28 @@ struct StreamsHarness : vh::Harness {
       return "bad-op";
     }
     std::string r = calls_since() + " bw=" + std::to_string((ull)os->bytes_written()) + " pp=" +
-                    std::to_string(SbPeek::put_off(os->buf_));
+                    std::to_string(SbPeek::put_off(os->buf_)) + " a=" + std::to_string(attached);
     if (os->rdstate() != std::ios_base::goodbit) r += " st=" + std::to_string((int)os->rdstate());
     return r;
   }
 
   std::string istate() {
+    // rdstate: libstdc++ badbit = 1, eofbit = 2, failbit = 4
     return " br=" + std::to_string((ull)is->bytes_read()) + " g=" +
            std::to_string(SbPeek::get_off(is->buf_)) + " e=" +
-           std::to_string(SbPeek::get_end(is->buf_)) + " u=" + std::to_string((ull)rec.cur);
+           std::to_string(SbPeek::get_end(is->buf_)) + " u=" + std::to_string((ull)recs[attached].cur) +
+           " st=" + std::to_string((int)is->rdstate()) + " a=" + std::to_string(attached);
   }
 
+  // `i`: through the std::istream member functions (sentry + state bits); otherwise through rdbuf()
   std::string exec_istream(const std::vector<std::string> &w) {
     if (!is) return "bad-op";
-    bool raw = w.back() == "r";
+    bool via = w.back() == "i";
     size_t nargs = w.size() - ((w.back() == "r" || w.back() == "i") ? 1 : 0);
     if ((w[0] == "get" || w[0] == "peek") && nargs == 1) {
       int c;
-      if (raw) {
-        c = w[0] == "get" ? is->rdbuf()->sbumpc() : is->rdbuf()->sgetc();
-      } else {
-        is->clear();
-        c = w[0] == "get" ? is->get() : is->peek();
-        if ((c == EOF) != is->eof()) return "eofbit-mismatch";
-      }
+      if (via) c = w[0] == "get" ? is->get() : is->peek();
+      else c = w[0] == "get" ? is->rdbuf()->sbumpc() : is->rdbuf()->sgetc();
       if (c == EOF) return "c eof" + istate();
       return "c " + vh::hex(std::string(1, static_cast<char>(c))) + istate();
     }
@@ -337,18 +364,34 @@ struct StreamsHarness : vh::Harness {
       size_t n = strtoull(w[1].c_str(), nullptr, 10);
       std::string dest(n, '\xEE');
       size_t k;
-      if (raw) {
-        k = is->rdbuf()->sgetn(&dest[0], n);
-      } else {
-        is->clear();
+      if (via) {
         is->read(&dest[0], n);
         k = is->gcount();
-        if ((k != n) != is->eof()) return "eofbit-mismatch";
+      } else {
+        k = is->rdbuf()->sgetn(&dest[0], n);
       }
       return "b " + vh::hex(dest.substr(0, k)) + istate();
     }
+    if (w[0] == "clear" && w.size() == 1) {
+      is->clear();
+      return "ok" + istate();
+    }
+    if (w[0] == "sstream" && w.size() == 2) {
+      size_t j = strtoull(w[1].c_str(), nullptr, 10);
+      if (j >= nstreams) return "bad-op";
+      attach_log.push_back(std::make_pair(static_cast<int>(j), recs[j].cur));
+      is->set_stream(&recs[j]);
+      attached = static_cast<int>(j);
+      return "ok" + istate();
+    }
     if (w[0] == "useek" && w.size() == 2) {
-      rec.Seek(strtoull(w[1].c_str(), nullptr, 10));
+      recs[attached].Seek(strtoull(w[1].c_str(), nullptr, 10));
+      return "ok" + istate();
+    }
+    if (w[0] == "useekat" && w.size() == 3) {
+      size_t j = strtoull(w[1].c_str(), nullptr, 10);
+      if (j >= nstreams) return "bad-op";
+      recs[j].Seek(strtoull(w[2].c_str(), nullptr, 10));
       return "ok" + istate();
     }
     return "bad-op";
@@ -389,13 +432,14 @@ struct StreamsHarness : vh::Harness {
         return "ok";
       }
       if (w.size() == 3 && w[1] == "ostream") {
-        os.reset(new dmlc::ostream(&rec, strtoull(w[2].c_str(), nullptr, 10)));
+        os.reset(new dmlc::ostream(&recs[0], strtoull(w[2].c_str(), nullptr, 10)));
         kind = kOStream;
         return "ok";
       }
-      if (w.size() == 4 && w[1] == "istream") {
-        rec.data = vh::unhex(w[3]);
-        is.reset(new dmlc::istream(&rec, strtoull(w[2].c_str(), nullptr, 10)));
+      if (w.size() >= 4 && w.size() <= 3 + (size_t)kNS && w[1] == "istream") {
+        nstreams = w.size() - 3;
+        for (size_t k = 0; k < nstreams; ++k) recs[k].data = vh::unhex(w[3 + k]);
+        is.reset(new dmlc::istream(&recs[0], strtoull(w[2].c_str(), nullptr, 10)));
         kind = kIStream;
         return "ok";
       }
@@ -493,12 +537,17 @@ struct StreamsHarness : vh::Harness {
     }
   }
 
-  static std::vector<std::string> call_list(const std::string &r) {
+  // "calls n j:hex j:hex ..." -> (stream, bytes) pairs
+  static std::vector<std::pair<int, std::string>> call_list(const std::string &r) {
     auto w = vh::split_ws(r);
-    std::vector<std::string> cs;
+    std::vector<std::pair<int, std::string>> cs;
     if (w.size() < 2 || w[0] != "calls") return cs;
     size_t n = strtoull(w[1].c_str(), nullptr, 10);
-    for (size_t i = 0; i < n && 2 + i < w.size(); ++i) cs.push_back(vh::unhex(w[2 + i]));
+    for (size_t i = 0; i < n && 2 + i < w.size(); ++i) {
+      size_t colon = w[2 + i].find(':');
+      if (colon == std::string::npos) { cs.push_back(std::make_pair(-1, std::string())); continue; }
+      cs.push_back(std::make_pair(atoi(w[2 + i].c_str()), vh::unhex(w[2 + i].substr(colon + 1))));
+    }
     return cs;
   }
   static long long field(const std::string &r, const char *key) {
@@ -506,36 +555,51 @@ struct StreamsHarness : vh::Harness {
     return i == std::string::npos ? -1 : atoll(r.c_str() + i + strlen(key));
   }
 
+  // every stream receives exactly the bytes inserted while it was attached, in order, complete after
+  // flush / set_stream / destruction; bytes_written() counts all bytes handed over
   void oracle_ostream(const Case &c, const std::vector<std::string> &res, std::vector<std::string> *fail) {
-    std::string inserted, received;
+    std::string inserted[kNS], received[kNS];
+    int a = 0;
     bool seeks = false;
     for (size_t i = 1; i < c.ops.size(); ++i) {
       auto w = vh::split_ws(c.ops[i]);
       const std::string &got = res[i];
       if (got == "bad-op") continue;
       if (w[0] == "udump") {
-        if (!seeks && destroyed && got != "bytes " + vh::hex(inserted) + " @" + std::to_string((ull)inserted.size()))
-          fail->push_back("class=none prop=C19 ostream: wrapped stream holds `" + got.substr(0, 80) + "` after destruction, inserted " +
-                          vh::hex(inserted).substr(0, 80));
+        std::string want = "bytes";
+        for (int k = 0; k < kNS; ++k) want += " " + vh::hex(inserted[k]) + " @" + std::to_string((ull)inserted[k].size());
+        if (!seeks && destroyed && got != want)
+          fail->push_back("class=none prop=C19 ostream: wrapped streams hold `" + got.substr(0, 90) + "` after destruction, expected `" +
+                          want.substr(0, 90) + "`");
         continue;
       }
       if (!starts(got, "calls ")) {
         fail->push_back("class=none prop=C19 ostream op " + std::to_string(i) + " `" + c.ops[i].substr(0, 40) + "`: " + got);
         return;
       }
-      if (w[0] == "put") inserted += vh::unhex(w[1]);
-      if (w[0] == "write") inserted += vh::unhex(w[1]);
+      const int a0 = a;
+      if (w[0] == "put") inserted[a0] += vh::unhex(w[1]);
+      if (w[0] == "write") inserted[a0] += vh::unhex(w[1]);
       if (w[0] == "useek") seeks = true;
-      for (auto &x : call_list(got)) received += x;
-      bool synced = w[0] == "flush" || w[0] == "destroy" || w[0] == "reattach" || w[0] == "oveof";
+      if (w[0] == "sstream") a = atoi(w[1].c_str());
       std::string msg;
-      if (received.size() > inserted.size() || inserted.compare(0, received.size(), received) != 0)
-        msg = "bytes handed to the stream are not a prefix of the bytes inserted";
-      else if (synced && received != inserted)
-        msg = "after " + w[0] + " the stream has received " + std::to_string(received.size()) + " of " +
-              std::to_string(inserted.size()) + " inserted bytes";
-      else if (w[0] != "destroy" && field(got, "bw=") != (long long)received.size())
-        msg = "bytes_written() = " + std::to_string(field(got, "bw=")) + ", stream received " + std::to_string(received.size());
+      size_t total = 0;
+      for (auto &x : call_list(got)) {
+        if (x.first != a0) msg = "a Write call went to stream " + std::to_string(x.first) + " while stream " + std::to_string(a0) + " was attached";
+        else received[a0] += x.second;
+      }
+      for (int k = 0; k < kNS; ++k) total += received[k].size();
+      bool synced = w[0] == "flush" || w[0] == "destroy" || w[0] == "reattach" || w[0] == "oveof" || w[0] == "sstream";
+      if (!msg.empty()) {
+      } else if (received[a0].size() > inserted[a0].size() || inserted[a0].compare(0, received[a0].size(), received[a0]) != 0)
+        msg = "bytes handed to stream " + std::to_string(a0) + " are not a prefix of the bytes inserted while it was attached";
+      else if (synced && received[a0] != inserted[a0])
+        msg = "after " + w[0] + " stream " + std::to_string(a0) + " has received " + std::to_string(received[a0].size()) + " of " +
+              std::to_string(inserted[a0].size()) + " bytes inserted while it was attached";
+      else if (w[0] != "destroy" && field(got, "bw=") != (long long)total)
+        msg = "bytes_written() = " + std::to_string(field(got, "bw=")) + ", streams received " + std::to_string(total);
+      else if (w[0] != "destroy" && field(got, " a=") != a)
+        msg = "wrong stream attached";
       else if (got.find(" st=") != std::string::npos)
         msg = "ostream left the good state";
       if (!msg.empty()) {
@@ -543,64 +607,90 @@ struct StreamsHarness : vh::Harness {
         return;
       }
     }
-    if (rec.total_w != received.size())
-      fail->push_back("class=none prop=C19 ostream: call log and byte counter of the recording stream disagree");
   }
 
+  // in-order consumer over what each attached stream provides from the moment it is attached; state bits as
+  // documented for std::istream (get: eof|fail at the end, peek: eof, read: eof|fail when short, a stream that
+  // is not good() delivers nothing and sets failbit); set_stream "resets states"
   void oracle_istream(const Case &c, const std::vector<std::string> &res, std::vector<std::string> *fail) {
     auto w0 = vh::split_ws(c.ops[0]);
-    const std::string data = vh::unhex(w0[3]);
-    std::string extracted;
-    bool seeks = false;
+    std::vector<std::string> data;
+    for (size_t k = 3; k < w0.size(); ++k) data.push_back(vh::unhex(w0[k]));
+    std::string rest = data[0];
+    bool known = true;           // false after the attached stream was repositioned behind the adaptor's back
+    bool eofb = false, failb = false;
+    int a = 0;
+    size_t extracted = 0, lost = 0, nattach = 0;
+    long long prev_buffered = 0;
     for (size_t i = 1; i < c.ops.size(); ++i) {
       auto w = vh::split_ws(c.ops[i]);
       const std::string &got = res[i];
       if (got == "bad-op") continue;
       std::string msg;
       auto gw = vh::split_ws(got);
-      size_t before = extracted.size();
-      if (w[0] == "useek") {
-        seeks = true;
+      const bool via = w.back() == "i";
+      long long br = field(got, " br="), g = field(got, " g="), e = field(got, " e="), st = field(got, " st=");
+      if (w[0] == "useek" || (w[0] == "useekat" && atoi(w[1].c_str()) == a)) {
+        known = false;
+      } else if (w[0] == "useekat") {
+      } else if (w[0] == "clear") {
+        eofb = failb = false;
+      } else if (w[0] == "sstream") {
+        size_t j = strtoull(w[1].c_str(), nullptr, 10);
+        if (nattach >= attach_log.size() || attach_log[nattach].first != (int)j) { msg = "harness attach log out of step"; }
+        else {
+          size_t pos = attach_log[nattach++].second;
+          rest = pos < data[j].size() ? data[j].substr(pos) : "";
+          known = true;
+          eofb = failb = false;
+          a = static_cast<int>(j);
+          lost += prev_buffered;
+        }
       } else if (gw.size() < 2 || (gw[0] != "c" && gw[0] != "b")) {
         msg = got;
-      } else if (w[0] == "get" || w[0] == "peek") {
-        if (gw[1] != "eof" && w[0] == "get") extracted += vh::unhex(gw[1]);
-        if (!seeks) {
-          std::string want = before < data.size() ? vh::hex(data.substr(before, 1)) : "eof";
-          if (gw[1] != want) msg = "delivered " + gw[1] + ", next byte of the stream is " + want;
-        }
-      } else if (w[0] == "read") {
-        size_t n = strtoull(w[1].c_str(), nullptr, 10);
-        std::string b = vh::unhex(gw[1]);
-        extracted += b;
-        if (!seeks) {
-          std::string want = before < data.size() ? data.substr(before, n) : "";
-          if (b != want) msg = "block " + gw[1].substr(0, 60) + ", the stream continues with " + vh::hex(want).substr(0, 60);
-        } else if (b.size() > n) {
-          msg = "more bytes than requested";
+      } else if (w[0] == "get" || w[0] == "peek" || w[0] == "read") {
+        const bool blocked = via && (eofb || failb);
+        const bool isread = w[0] == "read";
+        size_t n = isread ? strtoull(w[1].c_str(), nullptr, 10) : 1;
+        std::string b = gw[1] == "eof" ? "" : vh::unhex(gw[1]);
+        if (w[0] != "peek") extracted += b.size();
+        if (blocked) {
+          failb = true;
+          if (!b.empty()) msg = "a stream that is not good() delivered bytes";
+        } else if (known) {
+          std::string want = rest.substr(0, n);
+          if (b != want)
+            msg = "delivered " + gw[1].substr(0, 60) + ", the attached stream provides " + (want.empty() ? "nothing (EOF)" : vh::hex(want).substr(0, 60));
+          if (w[0] != "peek") rest = rest.substr(want.size());
+          if (via) {
+            if (w[0] == "get" && want.empty()) eofb = failb = true;
+            if (w[0] == "peek" && want.empty()) eofb = true;
+            if (isread && want.size() != n) eofb = failb = true;
+          }
+        } else {
+          if (b.size() > n) msg = "more bytes than requested";
+          eofb = (st & 2) != 0;   // cannot be predicted: resynchronise
+          failb = (st & 4) != 0;
         }
       }
-      if (msg.empty() && w[0] != "useek") {
-        // bytes pulled from the stream so far = bytes extracted + bytes still buffered
-        long long br = field(got, " br="), g = field(got, " g="), e = field(got, " e=");
-        if (br < (long long)extracted.size()) msg = "bytes_read() smaller than the number of bytes extracted";
-        else if (e - g != br - (long long)extracted.size()) msg = "bytes_read() != extracted + buffered";
-        else if (!seeks && br > (long long)data.size()) msg = "bytes_read() larger than the stream";
-        else if (!seeks && br != field(got, " u=")) msg = "bytes_read() differs from the position of the wrapped stream";
+      if (msg.empty()) {
+        long long want_st = (eofb ? 2 : 0) + (failb ? 4 : 0);
+        if (st != want_st) msg = "rdstate() = " + std::to_string(st) + ", expected " + std::to_string(want_st) + " (eofbit=2, failbit=4)";
+        else if (field(got, " a=") != a) msg = "wrong stream attached";
+        else if (br < (long long)(extracted + lost)) msg = "bytes_read() smaller than the number of bytes extracted";
+        else if (e - g != br - (long long)extracted - (long long)lost) msg = "bytes_read() != extracted + buffered + dropped by set_stream";
       }
+      prev_buffered = e - g;
       if (!msg.empty()) {
         fail->push_back("class=none prop=C19 istream op " + std::to_string(i) + " `" + c.ops[i].substr(0, 40) + "`: " + msg);
         return;
       }
     }
-    // the recording stream's own log: extracted bytes are a prefix of the bytes it handed out, in order
-    std::string pulled;
-    for (auto &pr : rec.rlog) pulled += rec.data.substr(std::min(pr.first, rec.data.size()), pr.second);
-    if (extracted.size() > pulled.size() || pulled.compare(0, extracted.size(), extracted) != 0)
-      fail->push_back("class=none prop=C19 istream: extracted bytes are not a prefix of the bytes read from the stream");
-    if (is && (size_t)is->bytes_read() != rec.total_r)
+    size_t total_r = 0;
+    for (int k = 0; k < kNS; ++k) total_r += recs[k].total_r;
+    if (is && (size_t)is->bytes_read() != total_r)
       fail->push_back("class=none prop=C19 istream: bytes_read() = " + std::to_string((ull)is->bytes_read()) +
-                      ", stream delivered " + std::to_string((ull)rec.total_r));
+                      ", streams delivered " + std::to_string((ull)total_r));
   }
 
   void end_case(const Case &c, const std::vector<std::string> &res, std::vector<std::string> *fail) override {
@@ -609,7 +699,7 @@ struct StreamsHarness : vh::Harness {
     if (w0.size() < 3 || w0[0] != "open" || res[0] != "ok") return;
     if (w0[1] == "memstr" || w0[1] == "memfixed" || w0[1] == "file") oracle_store(c, res, fail);
     else if (w0[1] == "ostream") oracle_ostream(c, res, fail);
-    else if (w0[1] == "istream" && w0.size() == 4) oracle_istream(c, res, fail);
+    else if (w0[1] == "istream" && w0.size() >= 4) oracle_istream(c, res, fail);
   }
 
   std::string shape(const Case &c, const std::vector<std::string> &res) override {
@@ -842,7 +932,7 @@ int main(int argc, char **argv) {
   for (size_t b : bufsizes) {
     size_t cap = b == 0 ? 2 : b;
     std::set<size_t> lens = {0, 1, 2, cap - 1, cap, cap + 1, 2 * cap + 1};
-    std::vector<std::string> alpha = {"put 61", "put ff", "flush", "reattach", "oveof", "useek 0"};
+    std::vector<std::string> alpha = {"put 61", "put ff", "flush", "reattach", "oveof", "useek 0", "sstream 1", "sstream 0"};
     int tag = 0;
     for (size_t n : lens) {
       std::string s;
@@ -877,7 +967,8 @@ int main(int argc, char **argv) {
           if (b == 1024 && rng.chance(1, 5)) n = 1020 + rng.below(10) + (rng.chance(1, 3) ? 1024 : 0);
           c.ops.push_back("write " + vh::hex(rand_bytes(rng, n)) + (rng.chance(1, 2) ? " s" : " w"));
         } else if (d < 90) c.ops.push_back("flush");
-        else if (d < 93) c.ops.push_back("reattach");
+        else if (d < 92) c.ops.push_back("reattach");
+        else if (d < 94) c.ops.push_back("sstream " + U(rng.below(3)));
         else if (d < 95) c.ops.push_back("oveof");
         else if (allow_seek) c.ops.push_back("useek " + U(rng.below(30)));
         else c.ops.push_back("flush");
@@ -893,7 +984,39 @@ int main(int argc, char **argv) {
     std::set<size_t> dlens = {0, 1, 2, cap - 1, cap, cap + 1, 2 * cap, 2 * cap + 1};
     if (b != 1024) dlens.insert(37);
     std::vector<std::string> alpha = {"get i", "get r", "peek i", "read 0 i", "read 1 r", "read 2 i",
-                                      "read " + U(cap) + " r", "read " + U(cap + 1) + " i", "read 5000 i", "useek 0", "useek 1"};
+                                      "read " + U(cap) + " r", "read " + U(cap + 1) + " i", "read 5000 i", "clear", "sstream 1",
+                                      "useek 0", "useek 1"};
+    // streams 1 and 2 of every istream case
+    std::string d1, d2 = "Q";
+    for (size_t i = 0; i < cap + 2; ++i) d1.push_back(static_cast<char>(i == 1 ? 0xff : 'A' + i % 26));
+    const std::string others = " " + vh::hex(d1) + " " + vh::hex(d2);
+    // set_stream scenarios: before EOF, exactly at EOF, after EOF (state bits set), to the same stream after Seek,
+    // to another stream, several switches
+    for (size_t dl : std::set<size_t>{0, 1, cap, cap + 1, 2 * cap + 1}) {
+      std::string data;
+      for (size_t i = 0; i < dl; ++i) data.push_back(static_cast<char>(i % 7 == 3 ? 0xff : 'a' + i % 26));
+      const std::vector<std::vector<std::string>> before = {
+          {}, {"get i"}, {"read " + U(cap) + " i"}, {"read " + U(dl) + " i"}, {"read " + U(dl) + " r", "peek i"},
+          {"read 5000 i"}, {"read 5000 i", "get i"}, {"read 5000 r", "get i"}, {"peek i"}};
+      const std::vector<std::vector<std::string>> sw = {
+          {"sstream 1"}, {"sstream 0"}, {"useek 0", "sstream 0"}, {"useekat 0 1", "sstream 0"}, {"sstream 1", "sstream 2"},
+          {"sstream 1", "read 2 i", "useekat 0 0", "sstream 0"}, {"sstream 2", "read 5000 i", "sstream 1"},
+          {"useekat 1 " + U(cap + 2), "sstream 1"}};
+      const std::vector<std::vector<std::string>> after = {{"get i"}, {"read 5000 i"}, {"peek i", "get r"}, {"read " + U(cap + 1) + " i", "get i"}};
+      for (auto &pb : before)
+        for (auto &ps : sw)
+          for (auto &pa : after) {
+            Case c;
+            c.kind = "istream set_stream";
+            c.ops.push_back("open istream " + U(b) + " " + vh::hex(data) + others);
+            for (auto &o : pb) c.ops.push_back(o);
+            for (auto &o : ps) c.ops.push_back(o);
+            for (auto &o : pa) c.ops.push_back(o);
+            c.ops.push_back("read 5000 r");
+            c.ops.push_back("get i");
+            run(c);
+          }
+    }
     for (size_t dl : dlens) {
       std::string data;
       for (size_t i = 0; i < dl; ++i) data.push_back(static_cast<char>(i % 7 == 3 ? 0xff : 'a' + i % 26));
@@ -904,7 +1027,7 @@ int main(int argc, char **argv) {
       sequences(alpha, depth, [&](const std::vector<std::string> &ops) {
         Case c;
         c.kind = "istream exhaustive";
-        c.ops.push_back("open istream " + U(b) + " " + vh::hex(data));
+        c.ops.push_back("open istream " + U(b) + " " + vh::hex(data) + others);
         for (auto &o : ops) c.ops.push_back(o);
         c.ops.push_back("read 5000 r");
         c.ops.push_back("get i");
@@ -916,14 +1039,18 @@ int main(int argc, char **argv) {
       Case c;
       c.kind = "istream random";
       size_t dl = rng.below(it % 4 == 0 ? 5000 : 8 * cap + 3);
-      c.ops.push_back("open istream " + U(b) + " " + vh::hex(rand_bytes(rng, dl)));
+      c.ops.push_back("open istream " + U(b) + " " + vh::hex(rand_bytes(rng, dl)) + " " + vh::hex(rand_bytes(rng, rng.below(3 * cap + 2))) +
+                      " " + vh::hex(rand_bytes(rng, rng.below(40))));
       bool allow_seek = it % 3 == 0;
       size_t nops = 20 + rng.below(it % 4 == 0 ? 800 : 80);
       for (size_t j = 0; j < nops; ++j) {
         unsigned d = rng.below(100);
         std::string how = rng.chance(1, 2) ? " i" : " r";
-        if (d < 35) c.ops.push_back("get" + how);
-        else if (d < 50) c.ops.push_back("peek" + how);
+        if (d < 32) c.ops.push_back("get" + how);
+        else if (d < 45) c.ops.push_back("peek" + how);
+        else if (d < 53) c.ops.push_back("clear");
+        else if (d < 57) c.ops.push_back("sstream " + U(rng.below(3)));
+        else if (d < 60) c.ops.push_back("useekat " + U(rng.below(3)) + " " + U(rng.below(dl + 3)));
         else if (d < 95 || !allow_seek) {
           size_t n = rng.chance(1, 6) ? rng.below(3 * cap + 2) : rng.below(std::min<size_t>(cap + 3, 40));
           c.ops.push_back("read " + U(n) + how);
